@@ -334,18 +334,26 @@ public:
       time_rotation = _time_rotation(log_timestamp);
     }
 
-    if (!time_rotation && _config.rotation_max_file_size() != 0)
-    {
-      // Check if we need to rotate based on size
-      _size_rotation(log_statement.size(), log_timestamp);
-    }
+    // the size is checked in before_stream_write(), with the bytes the base sink really writes
+    _check_size_rotation = !time_rotation && _config.rotation_max_file_size() != 0;
 
     // write to file
     base_type::write_log(log_metadata, log_timestamp, thread_id, thread_name, process_id,
                           logger_name, log_level, log_level_description, log_level_short_code,
                           named_args, log_message, log_statement);
+  }
 
-    _file_size += log_statement.size();
+protected:
+  /***/
+  QUILL_ATTRIBUTE_HOT void before_stream_write(size_t bytes, uint64_t log_timestamp) override
+  {
+    if (_check_size_rotation)
+    {
+      // Check if we need to rotate based on size
+      _size_rotation(bytes, log_timestamp);
+    }
+
+    _file_size += bytes;
   }
 
 private:
@@ -833,6 +841,7 @@ protected:
   uint64_t _next_rotation_time;        /**< The next rotation time point */
   uint64_t _open_file_timestamp{0};    /**< The timestamp of the currently open file */
   size_t _file_size{0};                /**< The current file size */
+  bool _check_size_rotation{false};    /**< Set by write_log for before_stream_write */
   RotatingFileSinkConfig _config;
 };
 
